@@ -193,9 +193,12 @@ func newBodyEngine(bodies []abBody) *twig.Engine {
 }
 
 // runBodies renders every body of the group with the value v and returns the first deviation
-func runBodies(e *twig.Engine, bodies []abBody, v interface{}, what string, renders *int64, sig *bool) *finding {
+func runBodies(t *vlib.T, e *twig.Engine, bodies []abBody, v interface{}, what string, renders *int64, sig *bool) *finding {
 	ctx := map[string]interface{}{"v": v, "c": true}
-	for _, b := range bodies {
+	for bi, b := range bodies {
+		if bi%64 == 0 {
+			t.Progress()
+		}
 		plain, err := e.Render(b.tpl[2], ctx)
 		*renders++
 		route := "apply body " + b.placement + "/" + b.body
@@ -258,7 +261,7 @@ func runBodyBlock(t *vlib.T, b block, g int, triples bool) *vlib.Outcome {
 		}
 		inputs++
 		features(in, feat)
-		first = runBodies(e, bodies, in, strconv.QuoteToASCII(clip(in, 200)), &renders, &sig)
+		first = runBodies(t, e, bodies, in, strconv.QuoteToASCII(clip(in, 200)), &renders, &sig)
 		t.Progress()
 	})
 	kind := "pairs"
@@ -277,8 +280,8 @@ func runBodyBlock(t *vlib.T, b block, g int, triples bool) *vlib.Outcome {
 	return o
 }
 
-func runBodyNonStrings(t *vlib.T, g int) *vlib.Outcome {
-	bodies := abGroup(g, true)
+func runBodyNonStrings(t *vlib.T, g int, triples bool) *vlib.Outcome {
+	bodies := abGroup(g, triples)
 	e := newBodyEngine(bodies)
 	feat := map[string]bool{}
 	var first *finding
@@ -287,7 +290,7 @@ func runBodyNonStrings(t *vlib.T, g int) *vlib.Outcome {
 	for _, nv := range nonStrings() {
 		inputs++
 		feat[nv.name] = true
-		if first = runBodies(e, bodies, nv.v(), "value "+nv.name, &renders, &sig); first != nil {
+		if first = runBodies(t, e, bodies, nv.v(), "value "+nv.name, &renders, &sig); first != nil {
 			break
 		}
 		t.Progress()
@@ -304,21 +307,26 @@ func runBodyNonStrings(t *vlib.T, g int) *vlib.Outcome {
 // bodyBlocks: the inputs of the apply-body dimension (the structure of the body is what is enumerated
 // here; the inputs are the short ones of every family).
 //
-//	quick:    specials, the 256 single bytes, singles and pairs of already-escaped forms, alphabet strings
-//	          of length <= 2, boundary lengths up to 257 repeats, code points below U+0100 inside a?&
-//	thorough: alphabet strings of length <= 3, pairs and triples of already-escaped forms, boundary
-//	          lengths up to 4097, code points below U+3000
+//	quick:    specials, the 256 single bytes, the 23 already-escaped forms, alphabet strings of length <= 2,
+//	          boundary lengths up to 65 repeats, code points below U+0100 inside a?&
+//	thorough: alphabet strings of length <= 3, singles and pairs of already-escaped forms, boundary
+//	          lengths up to 4097, code points below U+0800
 //
-// triples of children: quick on the specials and the non-string values, thorough also on the single
-// bytes and the alphabet strings.
+// every kind alone (all placements): all of these inputs. Mixtures of two children: quick on the
+// specials, single bytes, alphabet strings and non-string values, thorough on all inputs. Mixtures of
+// three: quick on the specials, thorough also on the single bytes and the non-string values.
 func bodyBlocks(thorough bool) []block {
 	never := func(int) bool { return false }
 	if thorough {
-		return buildBlocks(blockCfg{L: 3, bytesLen: 1, refsLen: 3, maxRep: 4097, long: false, cpEnd: 0x3000, cpAlone: never, cpCore: never})
+		return buildBlocks(blockCfg{L: 3, bytesLen: 1, refsLen: 2, maxRep: 4097, long: false, cpEnd: 0x800, cpAlone: never, cpCore: never})
 	}
-	return buildBlocks(blockCfg{L: 2, bytesLen: 1, refsLen: 2, maxRep: 257, long: false, cpEnd: 0x100, cpAlone: never, cpCore: never})
+	return buildBlocks(blockCfg{L: 2, bytesLen: 1, refsLen: 1, maxRep: 65, long: false, cpEnd: 0x100, cpAlone: never, cpCore: never})
+}
+
+func bodyPairs(b block, thorough bool) bool {
+	return thorough || b.family == "special" || b.family == "bytes1" || b.family == "alpha"
 }
 
 func bodyTriples(b block, thorough bool) bool {
-	return b.family == "special" || thorough && (b.family == "bytes1" || b.family == "alpha")
+	return b.family == "special" || thorough && b.family == "bytes1"
 }
